@@ -600,8 +600,34 @@ def set_order_check(repo, tier, seed):
     if not ok:
         viol.append({'obligation': name, 'function': f.ident if f is not None else 'asn1tools/codecs/der.py::SetOf',
                      'verdict': 'data-flow obligation failed', 'solver_output': why, 'inputs': None})
+    # X.690 11.2.2: DER BIT STRING with a named bit list -- the value that is encoded is the cleaned one: under
+    # `if self.has_named_bits` the data is replaced by clean_bit_string_value(data, True) / rstrip_bit_string_zeros(..)
+    bs = dm.classes.get('BitString')
+    f = prog.find_method(bs, 'encode') if bs is not None else None
+    ok = False
+    if f is not None:
+        for n in ast.walk(f.node):
+            if isinstance(n, ast.If) and ast.unparse(n.test) == 'self.has_named_bits':
+                for a in n.body:
+                    if isinstance(a, ast.Assign) and isinstance(a.value, ast.Call) and isinstance(a.value.func, ast.Name) \
+                            and a.value.func.id in ('clean_bit_string_value', 'rstrip_bit_string_zeros') \
+                            and isinstance(a.targets[0], (ast.Name, ast.Tuple)) \
+                            and any(isinstance(x, ast.Name) and x.id == 'data' for x in ast.walk(a.targets[0])) \
+                            and any(isinstance(x, ast.Name) and x.id == 'data' for x in ast.walk(a.value)):
+                        ok = True
+        name = '%s/named-bits-trailing-zeros-removed(der.BitString)' % f.ident
+        funcs.append({'function': f.ident, 'source_sha256': f.sha, 'paths': 1, 'obligations': 1, 'discharged': int(ok),
+                      'outcomes': {}, 'seconds': 0.0, 'inlined_callees': []})
+    else:
+        name = 'asn1tools/codecs/der.py::BitString.encode/named-bits-trailing-zeros-removed(der.BitString)'
+    obs.append((name, ok))
+    if not ok:
+        viol.append({'obligation': name, 'function': f.ident if f is not None else 'asn1tools/codecs/der.py::BitString',
+                     'verdict': 'data-flow obligation failed',
+                     'solver_output': 'der.BitString.encode does not replace the value by its cleaned form (trailing zero bits removed) '
+                                      'when the type has a named bit list', 'inputs': None})
     return {'name': 'SET ordering data-flow', 'obligations': len(obs), 'discharged': sum(1 for o in obs if o[1]), 'violations': viol,
-            'functions': funcs, 'undecided': [] if len(obs) == 4 else [{'function': 'ber/der Compiler', 'kind': 'shape',
+            'functions': funcs, 'undecided': [] if len(obs) == 5 else [{'function': 'ber/der Compiler', 'kind': 'shape',
                                                                         'reason': 'compile_implicit_type / compile_members not found'}],
             'coverage': {'obligations': [o[0] for o in obs]}}
 
